@@ -4,10 +4,10 @@
 // Every thread is a goroutine with its own `resume` channel; there is one `yield` channel. Exactly one thread
 // runs at a time; it hands control back at scheduling points (Point, Block). At each point the scheduler
 // computes the enabled set in CANONICAL ORDER: the running thread first if it is still enabled, then the other
-// enabled threads by ascending id, environment threads (Env, e.g. the clock) last. Choice 0 is free. Another
-// choice costs one preemption if the running (non-Env) thread is still enabled, or if it picks an Env thread
-// while a non-Env thread could run (an "early" environment step); otherwise (running thread blocked/finished)
-// it is free. Explore(bound) executes every schedule whose total cost is <= bound: run a choice prefix, extend
+// enabled threads by ascending id, then environment threads (Env, e.g. the clock), then threads that are blocked
+// but allow an early wake-up (BlockSoft). Choice 0 is free. Another choice costs one preemption if the running
+// (non-Env) thread is still enabled, or if it picks an Env thread while a non-Env thread could run (an "early"
+// environment step), or if it is an early wake-up; otherwise (running thread blocked/finished) it is free. Explore(bound) executes every schedule whose total cost is <= bound: run a choice prefix, extend
 // it with choice 0 to the end, then branch on every later point. Replaying a prefix must reproduce the recorded
 // enabled sets; a divergence is a hard HARNESS-ERROR (exit 2). Nothing is sampled.
 package sched
@@ -71,6 +71,7 @@ type thread struct {
 	resume chan struct{}
 	state  int
 	ready  func() bool
+	early  func() bool // optional: while !ready(), the thread may still be chosen at the cost of one preemption
 	label  string
 	pc     int
 }
@@ -110,8 +111,8 @@ func Current() int {
 	return -1
 }
 
-func (r *run) park(t *thread, label string, state int, ready func() bool) {
-	t.label, t.state, t.ready = label, state, ready
+func (r *run) park(t *thread, label string, state int, ready, early func() bool) {
+	t.label, t.state, t.ready, t.early = label, state, ready, early
 	t.pc++
 	r.yield <- t.id
 	<-t.resume
@@ -127,12 +128,16 @@ func Point(label string) {
 	if t == nil || r.aborting {
 		return
 	}
-	r.park(t, label, stParked, nil)
+	r.park(t, label, stParked, nil, nil)
 }
 
 // Block parks the calling thread until ready() holds; ready is evaluated by the scheduler while no thread runs.
 // A blocked thread is not enabled. Returns false (without waiting) when the caller is not a scheduler thread.
-func Block(label string, ready func() bool) bool {
+func Block(label string, ready func() bool) bool { return BlockSoft(label, ready, nil) }
+
+// BlockSoft is Block with an "early wake-up": while ready() is false but early() holds, the thread can still be
+// chosen, always at the cost of one preemption (e.g. a reconcile triggered before its requeue time).
+func BlockSoft(label string, ready, early func() bool) bool {
 	r, t := current()
 	if t == nil {
 		return false
@@ -140,7 +145,7 @@ func Block(label string, ready func() bool) bool {
 	if r.aborting {
 		panic(abortSignal{})
 	}
-	r.park(t, label, stBlocked, ready)
+	r.park(t, label, stBlocked, ready, early)
 	return true
 }
 
@@ -183,6 +188,9 @@ type Explorer struct {
 	Executions, PointsExecuted int64
 	ByCost                     map[int]int64 // executions by total preemption cost
 	Stopped                    bool
+	// Sharding of ONE exploration over several processes (see explore). Shards <= 1 means no sharding.
+	Shard, Shards int
+	nodes         [3]int // nodes seen so far at depth 0, 1, 2 (identical in every shard: the tree is deterministic)
 }
 
 // ThreadInfo exposes (label, pc, finished) of every thread of the execution in progress, for state keys.
@@ -274,6 +282,12 @@ func (e *Explorer) Run(prefix []int, expect []PointRec) *Execution {
 				en = append(en, t.id)
 			}
 		}
+		hard := len(en)
+		for _, t := range r.threads {
+			if t.state == stBlocked && t.early != nil && !t.ready() && t.early() {
+				en = append(en, t.id)
+			}
+		}
 		for _, t := range r.threads {
 			if t.state != stFinished {
 				unfinished++
@@ -298,7 +312,7 @@ func (e *Explorer) Run(prefix []int, expect []PointRec) *Execution {
 		}
 		p := PointRec{Enabled: en, Costs: make([]int, len(en))}
 		for a := 1; a < len(en); a++ {
-			if runningEnabled || r.threads[en[a]].spec.Env && nonEnv > 0 {
+			if runningEnabled || r.threads[en[a]].spec.Env && nonEnv > 0 || a >= hard {
 				p.Costs[a] = 1
 			}
 		}
@@ -320,30 +334,45 @@ func (e *Explorer) Run(prefix []int, expect []PointRec) *Execution {
 			e.AfterStep(x)
 		}
 	}
-	e.Executions++
-	if e.ByCost == nil {
-		e.ByCost = map[int]int64{}
-	}
-	e.ByCost[x.Preemptions]++
 	return x
 }
 
 // Explore executes every schedule of cost <= e.Bound (depth first, canonical choice first).
-func (e *Explorer) Explore() { e.explore(nil, nil) }
+func (e *Explorer) Explore() {
+	e.nodes = [3]int{}
+	e.explore(nil, nil, 0)
+}
 
-func (e *Explorer) explore(prefix []int, expect []PointRec) {
+// Sharding: the root execution and the depth-1 nodes (one deviation) are EXECUTED by every shard (their points are
+// needed to branch) but judged and counted by exactly one; the sub-trees at depth 2 are dealt out round-robin.
+func (e *Explorer) explore(prefix []int, expect []PointRec, depth int) {
 	if e.Stopped || e.Stop != nil && e.Stop() {
 		e.Stopped = true
 		return
 	}
+	mine := true
+	if e.Shards > 1 && depth <= 2 {
+		mine = e.nodes[depth]%e.Shards == e.Shard
+		e.nodes[depth]++
+		if depth == 2 && !mine {
+			return
+		}
+	}
 	x := e.Run(prefix, expect)
-	e.Check(x)
+	if mine {
+		e.Executions++
+		if e.ByCost == nil {
+			e.ByCost = map[int]int64{}
+		}
+		e.ByCost[x.Preemptions]++
+		e.Check(x)
+	}
 	cost, choices := 0, x.Choices()
 	for i, p := range x.Points {
 		if i >= len(prefix) {
 			for alt := 1; alt < len(p.Enabled); alt++ {
 				if cost+p.Costs[alt] <= e.Bound {
-					e.explore(append(append(make([]int, 0, i+1), choices[:i]...), alt), x.Points[:i+1])
+					e.explore(append(append(make([]int, 0, i+1), choices[:i]...), alt), x.Points[:i+1], depth+1)
 				}
 			}
 		}
